@@ -66,15 +66,15 @@ pub fn standard_cfgs(level: &str) -> Vec<RunCfg> {
     if level == "plain" {
         return v;
     }
-    v.push(RunCfg { name: "prefix".into(), sched: Sched::None, budgets: None, prefix: true });
+    v.push(RunCfg { name: "prefix".into(), sched: Sched::None, budgets: None, prefix: true, live: false });
     if level == "basic" {
         return v;
     }
-    v.push(RunCfg { name: "gc1".into(), sched: Sched::Every(1), budgets: None, prefix: false });
-    v.push(RunCfg { name: "gc3".into(), sched: Sched::Every(3), budgets: None, prefix: false });
-    v.push(RunCfg { name: "gcr".into(), sched: Sched::Random(12345, 100), budgets: None, prefix: false });
-    v.push(RunCfg { name: "slice2".into(), sched: Sched::None, budgets: Some(vec![2]), prefix: false });
-    v.push(RunCfg { name: "slice7".into(), sched: Sched::None, budgets: Some(vec![7, 3, 50]), prefix: false });
+    v.push(RunCfg { name: "gc1".into(), sched: Sched::Every(1), budgets: None, prefix: false, live: false });
+    v.push(RunCfg { name: "gc3".into(), sched: Sched::Every(3), budgets: None, prefix: false, live: false });
+    v.push(RunCfg { name: "gcr".into(), sched: Sched::Random(12345, 100), budgets: None, prefix: false, live: false });
+    v.push(RunCfg { name: "slice2".into(), sched: Sched::None, budgets: Some(vec![2]), prefix: false, live: false });
+    v.push(RunCfg { name: "slice7".into(), sched: Sched::None, budgets: Some(vec![7, 3, 50]), prefix: false, live: false });
     v
 }
 
@@ -87,6 +87,18 @@ pub fn session_json_x(
     forms: &[Cell],
     expect: Option<&[Option<String>]>,
     cfgs: &[RunCfg],
+    extra: &[(&str, Value)],
+) -> Value {
+    let runs: Vec<(String, Vec<Value>)> = cfgs.iter().map(|c| (c.name.clone(), run_session(forms, c))).collect();
+    session_json_runs(id, forms, expect, runs, extra)
+}
+
+/// Session record from observations that were made already.
+pub fn session_json_runs(
+    id: usize,
+    forms: &[Cell],
+    expect: Option<&[Option<String>]>,
+    runs: Vec<(String, Vec<Value>)>,
     extra: &[(&str, Value)],
 ) -> Value {
     let mut st = SymTab::new();
@@ -104,10 +116,7 @@ pub fn session_json_x(
             });
         }
     }
-    let runs: Vec<Value> = cfgs
-        .iter()
-        .map(|c| json!({"cfg": c.name, "obs": run_session(forms, c)}))
-        .collect();
+    let runs: Vec<Value> = runs.into_iter().map(|(n, o)| json!({"cfg": n, "obs": o})).collect();
     let text: Vec<String> = forms.iter().map(|f| format!("{:#}", f)).collect();
     let mut j = json!({"id": id, "syms": st.to_json(), "forms": fj, "runs": runs, "text": text});
     if expect.is_some() {
